@@ -6,8 +6,8 @@ import "strings"
 func TemplateVars(tpl string) []string {
 	var out []string
 	for _, seg := range strings.Split(strings.TrimPrefix(tpl, "/"), "/") {
-		if strings.HasPrefix(seg, "{") && strings.HasSuffix(seg, "}") {
-			out = append(out, seg[1:len(seg)-1])
+		if _, name, _, ok := splitSegment(seg); ok {
+			out = append(out, name)
 		}
 	}
 	return out
@@ -23,11 +23,12 @@ func MatchTemplate(tpl, path string) (map[string]string, bool) {
 	}
 	vars := map[string]string{}
 	for i, t := range ts {
-		if strings.HasPrefix(t, "{") && strings.HasSuffix(t, "}") {
-			if ps[i] == "" {
+		if pre, name, suf, ok := splitSegment(t); ok {
+			// a variable (possibly with a literal prefix and suffix inside the segment) binds non-empty text
+			if !strings.HasPrefix(ps[i], pre) || !strings.HasSuffix(ps[i], suf) || len(ps[i]) <= len(pre)+len(suf) {
 				return nil, false
 			}
-			vars[t[1:len(t)-1]] = ps[i]
+			vars[name] = ps[i][len(pre) : len(ps[i])-len(suf)]
 			continue
 		}
 		if t != ps[i] {
@@ -44,4 +45,14 @@ func FillTemplate(tpl string, vars map[string]string) string {
 		out = strings.ReplaceAll(out, "{"+k+"}", v)
 	}
 	return out
+}
+
+// splitSegment splits a template segment with one variable into literal prefix, variable name and literal suffix.
+func splitSegment(seg string) (pre, name, suf string, ok bool) {
+	i := strings.IndexByte(seg, '{')
+	j := strings.IndexByte(seg, '}')
+	if i < 0 || j < i {
+		return "", "", "", false
+	}
+	return seg[:i], seg[i+1 : j], seg[j+1:], true
 }
